@@ -169,7 +169,7 @@ PROPS = {
             'count from {0,1,2,3,4,5,9}; series/total around the limits (L-1,L,L+1,L/2,...; total >> series); reported loads consistent, at the '
             'limits, at the relief thresholds (1.1,1.4,1.6,1.8 x), tied with shard 0 on purpose; idle ages 30s..100000s vs max-idle 0/60/3600; '
             'min/max shard around the current count; explorer results present/absent/bad/unknown; failing POSTs and failing early scale request; '
-            'malformed stream: min>max, max_proc=0. Membership under ALL schedules of the model (enumerated, budget 6000). non-trivial = the cycle '
+            'malformed stream: min>max, max_proc=0. Two cases in five are built around branches the random stream rarely reaches (several moves onto one destination, scale-down below shards that are not in sync, unready tails behind expired idle shards, first assignment next to out-of-sync copies, and a scale-down whose pre-check passes while its moves stop half way because the two walk the map of the tail shard in different orders - found missing by a statement-coverage measurement of the run). Membership under ALL schedules of the model (enumerated, budget 6000). non-trivial = the cycle '
             'sent at least one target POST or requested a scale different from the current count; distinct by input || manyshards, in every run: one real cycle over a replica of 40 ready but silent shards and 4 healthy ones, and a second replica, in both orders: the cycle completes and the healthy shards and the other replica are served',
     'theorems': 'C01_no_orphan C01_taken_only_if C01_closed_loop',
     'trusted_base': [   'model Model/Coordinator.v hand-written from rebalance.go/coordinator.go/shard.go; tie = differential run of the real '
@@ -196,7 +196,7 @@ PROPS = {
             'count from {0,1,2,3,4,5,9}; series/total around the limits (L-1,L,L+1,L/2,...; total >> series); reported loads consistent, at the '
             'limits, at the relief thresholds (1.1,1.4,1.6,1.8 x), tied with shard 0 on purpose; idle ages 30s..100000s vs max-idle 0/60/3600; '
             'min/max shard around the current count; explorer results present/absent/bad/unknown; failing POSTs and failing early scale request; '
-            'malformed stream: min>max, max_proc=0. Membership under ALL schedules of the model (enumerated, budget 6000). non-trivial = the cycle '
+            'malformed stream: min>max, max_proc=0. Two cases in five are built around branches the random stream rarely reaches (several moves onto one destination, scale-down below shards that are not in sync, unready tails behind expired idle shards, first assignment next to out-of-sync copies, and a scale-down whose pre-check passes while its moves stop half way because the two walk the map of the tail shard in different orders - found missing by a statement-coverage measurement of the run). Membership under ALL schedules of the model (enumerated, budget 6000). non-trivial = the cycle '
             'sent at least one target POST or requested a scale different from the current count; distinct by input || coordinatorbinary, in every run (35 s): `kvass` is built from the working tree and `kvass coordinator` is started with a static shard file (a stub sidecar), a configuration file with three static targets over two jobs pointing at a real HTTP target of 100 samples, a 300 ms period: the API lists the targets, the shard is given them with their explored sizes, a reload that removes a job removes its target from the API at once, a reload that restores it brings it back; a second process with --shard.max-head-series=1500 --shard.max-process-series=1000 and a shard reporting 1450 head series places nothing; a third process with --shard.max-process-series=350 and a shard reporting 200 process series places exactly one of the targets (200+100 fits, 300+100 does not)',
     'theorems': 'C04_fits C04_running_load C04_reported_plus_placed_fits C04_oversized_never_assigned C04_oversized_adds_no_need',
     'trusted_base': [   'model Model/Coordinator.v hand-written from rebalance.go/coordinator.go/shard.go; tie = differential run of the real '
@@ -227,7 +227,7 @@ PROPS = {
             'count from {0,1,2,3,4,5,9}; series/total around the limits (L-1,L,L+1,L/2,...; total >> series); reported loads consistent, at the '
             'limits, at the relief thresholds (1.1,1.4,1.6,1.8 x), tied with shard 0 on purpose; idle ages 30s..100000s vs max-idle 0/60/3600; '
             'min/max shard around the current count; explorer results present/absent/bad/unknown; failing POSTs and failing early scale request; '
-            'malformed stream: min>max, max_proc=0. Membership under ALL schedules of the model (enumerated, budget 6000). non-trivial = the cycle '
+            'malformed stream: min>max, max_proc=0. Two cases in five are built around branches the random stream rarely reaches (several moves onto one destination, scale-down below shards that are not in sync, unready tails behind expired idle shards, first assignment next to out-of-sync copies, and a scale-down whose pre-check passes while its moves stop half way because the two walk the map of the tail shard in different orders - found missing by a statement-coverage measurement of the run). Membership under ALL schedules of the model (enumerated, budget 6000). non-trivial = the cycle '
             'sent at least one target POST or requested a scale different from the current count; distinct by input',
     'theorems': 'C05_handover C05_handover_completes C05_threshold_is_documented C05_no_gap_cycle C05_no_gap_history (+ computed closed-loop example)',
     'trusted_base': [   'model Model/Coordinator.v hand-written from rebalance.go/coordinator.go/shard.go; tie = differential run of the real '
@@ -255,7 +255,7 @@ PROPS = {
             'count from {0,1,2,3,4,5,9}; series/total around the limits (L-1,L,L+1,L/2,...; total >> series); reported loads consistent, at the '
             'limits, at the relief thresholds (1.1,1.4,1.6,1.8 x), tied with shard 0 on purpose; idle ages 30s..100000s vs max-idle 0/60/3600; '
             'min/max shard around the current count; explorer results present/absent/bad/unknown; failing POSTs and failing early scale request; '
-            'malformed stream: min>max, max_proc=0. Membership under ALL schedules of the model (enumerated, budget 6000). non-trivial = the cycle '
+            'malformed stream: min>max, max_proc=0. Two cases in five are built around branches the random stream rarely reaches (several moves onto one destination, scale-down below shards that are not in sync, unready tails behind expired idle shards, first assignment next to out-of-sync copies, and a scale-down whose pre-check passes while its moves stop half way because the two walk the map of the tail shard in different orders - found missing by a statement-coverage measurement of the run). Membership under ALL schedules of the model (enumerated, budget 6000). non-trivial = the cycle '
             'sent at least one target POST or requested a scale different from the current count; distinct by input || slowshard, in every run (7 s): three shards, the middle one taking 3.5 s per request, the last one holding a target, idle time-out off: no scale request below three || k8s engine (the shard list on which the ordinal reasoning of the coordinator rests): 60% ChangeScale, 20% Shards() with 0-12 pods in shuffled order (ordinal order is not name order from ten pods on), 20% Replicas()',
     'theorems': 'C07_bounds C07_early_request_raises C07_keeps_used C07_holding_shard_kept C07_no_shrink',
     'trusted_base': [   'model Model/Coordinator.v hand-written from rebalance.go/coordinator.go/shard.go; tie = differential run of the real '
@@ -279,7 +279,7 @@ PROPS = {
             'count from {0,1,2,3,4,5,9}; series/total around the limits (L-1,L,L+1,L/2,...; total >> series); reported loads consistent, at the '
             'limits, at the relief thresholds (1.1,1.4,1.6,1.8 x), tied with shard 0 on purpose; idle ages 30s..100000s vs max-idle 0/60/3600; '
             'min/max shard around the current count; explorer results present/absent/bad/unknown; failing POSTs and failing early scale request; '
-            'malformed stream: min>max, max_proc=0. Membership under ALL schedules of the model (enumerated, budget 6000). non-trivial = the cycle '
+            'malformed stream: min>max, max_proc=0. Two cases in five are built around branches the random stream rarely reaches (several moves onto one destination, scale-down below shards that are not in sync, unready tails behind expired idle shards, first assignment next to out-of-sync copies, and a scale-down whose pre-check passes while its moves stop half way because the two walk the map of the tail shard in different orders - found missing by a statement-coverage measurement of the run). Membership under ALL schedules of the model (enumerated, budget 6000). non-trivial = the cycle '
             'sent at least one target POST or requested a scale different from the current count; distinct by input || apiwire, in every run: the coordinator with its own HTTP client (pkg/api; the engines script Shard.APIGet/APIPost) against two sidecars of which one fails its status request on the wire - refused, hung up, 500 empty, 502 null, 503 with a JSON object, 404 HTML, an error result, a truncated answer - while its runtime info is fine: it must get no request that changes it',
     'theorems': 'C08_left_alone C08_destinations_in_sync C08_log_shapes C08_insync_iff C08_push_iff C08_full_log',
     'trusted_base': [   'model Model/Coordinator.v hand-written from rebalance.go/coordinator.go/shard.go; tie = differential run of the real '
@@ -347,6 +347,7 @@ PROPS = {
                 'Injector (ApplyConfig then UpdateTargets, or - one case in three - the assignment first, as after a restart without a configuration file) after a HISTORY of 0-2 earlier configurations/assignments on the same injector (fresh ones, '
                 'or copies differing only in external labels / in a non-job secret / in the assignment); the written file is loaded with '
                 'config.Load and projected like the input; non-job sections are compared as generic documents and as loaded structs; the file '
+                'One configuration in five uses YAML anchors and aliases across sections (a relabel list anchored in alerting or in a job and used by remote_write entries, a scalar anchored in the external labels). '
                 'is searched for every job secret. non-trivial = >= 1 job; distinct by input || injectorder, in every run: an assignment of 12000 targets and, while it is being written, one of 1 target, on the real injector: the file holds the later one (skipped when the machine writes the large one in under 150 ms) || sidecar engine, wired as cmd/kvass/sidecar.go wires the binary: the REAL injector is the first update callback of the targets manager and the reload callback of the configuration manager (a restart makes a new one; configuration before or after the stored assignment, alternating); after every operation the generated file is loaded as Prometheus would and must list, per job, exactly the hashes the model holds (updates that repeat, empty, drop whole jobs, fail in a later callback; restarts) || sidecarwire, in every run: `kvass` is built from the working tree and `kvass sidecar` is started with a configuration file (one job with a bearer token and a metric_relabel_configs drop rule, an external label 0755 written in quotes), a stub Prometheus and a real loopback target; the run posts an assignment (the API lists it, the generated file lists it under its job with the routing labels, the proxy URL, plain http, no job secret, the external label as written, and the Prometheus is told to reload a file that lists it), scrapes the target through the proxy the way the generated file tells Prometheus to (the target gets the job request with its credentials and no routing parameter, the client gets the target bytes, the API reports up / series 7 / total 9 / one scrape, the runtime info adds them up), lets the target answer 500 (no 200 reaches the client, the API reports down with an error), and restarts the binary on the same directory (API and generated file list the assignment before any update)',
         'theorems': 'C11_jobs C11_names C11_job_fields C11_static_entry C11_no_job_secret C11_rest C11_sections_kept C11_generated_file_lists_the_assignment C11_generated_file_after_update',
         'trusted_base': ['Model/Inject.v hand-written from injector.go at the granularity of the property: ingestion-relevant settings, relabeling and TLS '
